@@ -63,6 +63,8 @@ func (c *Conversation) receiveSMP(m smpMessage) (*tlv, error) {
 }
 
 func (c *Conversation) continueSMP(mutualSecret []byte) (*tlv, error) {
+	c.smp.ensureSMP()
+
 	toSend, err := c.continueMessage(mutualSecret)
 
 	if err != nil {
